@@ -1053,7 +1053,8 @@ def declare_rules(ck):
             "allocated buffer (symbolic, general case); on the concrete degenerate states (all containers empty; first container of size "
             "one) writer and reader are evaluated with all their emptiness case splits and inlined accessor bodies: header values "
             "representable, reader inside buffer/containers, every size observer (e.g. get_num_nodes_domain) equal for original and "
-            "rebuilt object (input class: any graph; the default-constructed graph)", 10)
+            "rebuilt object; the states cover every empty/non-empty combination of the payload sections, so the conditions guarding a section "
+            "on both sides must agree (input class: any graph; the default-constructed graph; a graph with nodes but no adjacencies)", 13)
     ck.rule("E12.ini-delimiters",
             "every line form PropertyMap::write emits (key = value, [section], {, } # comment) is, after read()'s own comment "
             "stripping and trimming, classified by a distinct non-rejecting branch of read()'s if-chain (predicates and the comment "
@@ -2700,6 +2701,8 @@ class TagParser:
                 self.name = ""
                 self.closing = False
                 self.selfclose = False
+                self.name_cond = cond       # the markup is as conditional as its '<', not as the text that ends its name
+                self.name_node = node
             return
         if st == "name":
             if ch == "/" and self.name == "":
@@ -2709,7 +2712,7 @@ class TagParser:
                 self.name += ch
                 return
             if not self.closing:
-                self.cur = Tag(self.name, cond, node)
+                self.cur = Tag(self.name, getattr(self, "name_cond", cond), getattr(self, "name_node", node))
             self.state = "tag"
             st = "tag"
         if st == "tag":
@@ -3837,6 +3840,11 @@ def rule_buffer_layout(ck, W, gfacts):
         st = {c: 0 for c in conts}
         st[conts[0]] = 1
         states.append(("%s=1" % conts[0], st))
+    # every combination of empty / non-empty sections: the conditions that guard a section in the writer (early-outs) and in
+    # the reader (`if(n > 0)`, early returns) must select the same sections
+    for combo in itertools.product((0, 2), repeat=len(conts)):
+        if any(combo):
+            states.append((",".join("%s=%d" % (c, v) for c, v in zip(conts, combo)), dict(zip(conts, combo))))
     for label, st in states:
         key = "Graph/degenerate:%s" % label
         env = {"N_" + c: v for c, v in st.items()}
